@@ -53,6 +53,9 @@ type (
 
 // newBatchConn creates a batchConn based on the IP version of the provided net.PacketConn.
 func newBatchConn(conn net.PacketConn) batchConn {
+	if bc, ok := verifBatchConn(conn); ok {
+		return bc
+	}
 	if _, ok := conn.(udpConn); !ok {
 		return nil
 	}
